@@ -316,6 +316,30 @@ def w_sweep(task):
                                                            f'rejected: {ex}'))
         st_.evals += 1
         st_.classes['padding:extra-blocks'] += 1
+    # payloads in front of the SK payload (RFC 7296 3.14 only asks for SK to be the last one): still one protected message - it
+    # parses to the same protected payloads, and the checksum covers the clear part as well
+    vid = b'\x2e\x00\x00\x0b' + b'vendor!'            # VENDOR payload, next payload = SK
+    fronted = K.protect(h, first, chain, sk_e, sk_a, integ, hashlib.md5(name.encode()).digest(), clear=vid, clear_first=43)
+    try:
+        m1 = A.Message.parse(data, crypto=crypto)
+        m2 = A.Message.parse(fronted, crypto=crypto)
+        if [bytes(x.to_bytes()) for x in m1.encrypted_payloads] != [bytes(x.to_bytes()) for x in m2.encrypted_payloads] or \
+                [type(x).__name__ for x in m2.payloads] != ['PayloadVENDOR']:
+            fails.append(Failure('clear-payload-before-sk-changes-parse', f'{name} with a VENDOR payload in front of SK parses to clear '
+                                                                          f'{[type(x).__name__ for x in m2.payloads]} / other protected payloads'))
+        for pos in range(28, 28 + len(vid)):
+            b = bytearray(fronted)
+            b[pos] ^= 0x01
+            ok2, why2 = tamper_ok(bytes(b), crypto)
+            st_.evals += 1
+            if not ok2:
+                fails.append(Failure('tamper-undetected:clear-payload-before-sk', f'flipping a bit of the clear payload in front of SK '
+                                                                                  f'(offset {pos}) of {name} is {why2}'))
+                break
+    except A.IkeSaError as ex:
+        fails.append(Failure('clear-payload-before-sk-rejected', f'{name} with a VENDOR payload in front of the SK payload (SK is '
+                                                                 f'the last payload) is rejected: {ex}'))
+    st_.classes['clear-payload-before-sk'] += 1
     for v in range(256):
         if v == data[16]:
             continue
